@@ -569,6 +569,19 @@ func checkDecodedResult(r *chain.Result, b []byte) error {
 	if m := cp.Marshal(); !bytes.Equal(m, b) {
 		return fmt.Errorf("a fresh Result with the decoded fields encodes differently:\n input %s\n fresh %s", hx(b), hx(m))
 	}
+	// the JSON form the indexer API serves must carry the same value: through
+	// MarshalJSON / UnmarshalJSON and back to the binary form gives b again
+	js, err := json.Marshal(r)
+	if err != nil {
+		return fmt.Errorf("accepted result has no JSON form: %v", err)
+	}
+	var back chain.Result
+	if err := json.Unmarshal(js, &back); err != nil {
+		return fmt.Errorf("JSON form of an accepted result is not accepted back: %v (%s)", err, js)
+	}
+	if m := back.Marshal(); !bytes.Equal(m, b) {
+		return fmt.Errorf("result changed on the way through its JSON form:\n input %s\n json  %s\n after %s", hx(b), js, hx(m))
+	}
 	own := rootNode("result", "result", resultKids(r.Success, r.Error, r.Outputs, [5]uint64(r.Units), r.Fee)).encode(nil)
 	if !bytes.Equal(own, b) {
 		return fmt.Errorf("accepted result is not the canonical encoding of its decoded fields:\n input     %s\n canonical %s", hx(b), hx(own))
